@@ -2,7 +2,7 @@
 //@ assume: T6 rewrites: `vec![x; n]` => helper vec_filled (n copies of x); every `Err(Error::Verification("<message>".to_owned()))` => `Err(Error::<Kind>)`, one abstract kind per message, so that the contract can say WHY the input checks fail; integer literal types made explicit; `for n in 0..size` loops get spliced invariants
 //@ assume: termination of the two cycle-following loops is NOT proved: exec_allows_no_decreases_clause
 //@ assume: assumed: u64::leading_zeros(x) >= 1 for x < 2^63 (std intrinsic; only used to show `1 + mask` cannot overflow)
-//@ assume: decided here, for ANY proof size and any siphash outputs (no bound): CuckatooContext::verify_impl (Cuckatoo, the primary proof of work; bipartite graph, U endpoints at even and V endpoints at odd positions, two endpoints meet at a node when they are on the same side and agree on all but the lowest bit) never indexes out of range, and returns Ok ONLY IF the 2*size endpoints form one simple cycle through all `size` edges: starting from endpoint 0 and repeatedly moving to the UNIQUE other endpoint at the same node and then to the other end of that edge, the walk returns to endpoint 0 for the first time after exactly `size` steps, every node met has exactly two endpoints, all visited endpoints are distinct; plus nonces strictly ascending and within the edge mask. Every error except the xor pre-check carries its reason: wrong-length / edge-too-big / not-ascending are returned only for that reason; 'branch' only if three distinct endpoints share a node; 'dead end' only if some endpoint has no partner (or only an identical one); 'too short' only if the walk from endpoint 0 closes after m != size steps -- each of which is incompatible with the endpoints forming one simple cycle through all edges. (Not decided: that the xor pre-check 'endpoints don't match up' never fires on a simple cycle -- the pairing argument over xor -- so completeness is decided up to that check.)
+//@ assume: decided here, for ANY proof size and any siphash outputs (no bound): CuckatooContext::verify_impl (Cuckatoo, the primary proof of work; bipartite graph, U endpoints at even and V endpoints at odd positions, two endpoints meet at a node when they are on the same side and agree on all but the lowest bit) never indexes out of range, and returns Ok ONLY IF the 2*size endpoints form one simple cycle through all `size` edges: starting from endpoint 0 and repeatedly moving to the UNIQUE other endpoint at the same node and then to the other end of that edge, the walk returns to endpoint 0 for the first time after exactly `size` steps, every node met has exactly two endpoints AND THEY ARE THE TWO PARTNER VALUES x and x^1 (two edges meeting in the identical value are not a Cuckatoo join), all visited endpoints are distinct; plus nonces strictly ascending and within the edge mask. Every error except the xor pre-check carries its reason: wrong-length / edge-too-big / not-ascending are returned only for that reason; 'branch' only if three distinct endpoints share a node; 'dead end' only if some endpoint has no partner (or only an identical one); 'too short' only if the walk from endpoint 0 closes after m != size steps -- each of which is incompatible with the endpoints forming one simple cycle through all edges. (Not decided: that the xor pre-check 'endpoints don't match up' never fires on a simple cycle -- the pairing argument over xor -- so completeness is decided up to that check.)
 //@ assume: 64-bit target
 //@ assumed_items: 5
 //@ fns: CuckatooContext::verify_impl
@@ -227,11 +227,11 @@ proof fn lemma_xor1(j: usize) requires j < 0x7fff_ffff_ffff_ffff ensures (j ^ 1u
 pub open spec fn walk_ok(uvs: Seq<u64>, path: Seq<int>, js: Seq<int>) -> bool {
     &&& path.len() >= 1 && js.len() == path.len() - 1 && path[0] == 0
     &&& forall|t: int| 0 <= t < path.len() ==> 0 <= #[trigger] path[t] < uvs.len()
-    &&& forall|t: int| 0 <= t < js.len() ==> #[trigger] js[t] != path[t] && uniq(uvs, path[t], js[t]) && path[t + 1] == flip1(js[t])
+    &&& forall|t: int| 0 <= t < js.len() ==> #[trigger] js[t] != path[t] && uniq(uvs, path[t], js[t]) && path[t + 1] == flip1(js[t]) && uvs[js[t]] != uvs[path[t]]
     &&& path.no_duplicates()
 }
 proof fn lemma_walk_extend(uvs: Seq<u64>, path: Seq<int>, js: Seq<int>, j: int)
-    requires walk_ok(uvs, path, js), uvs.len() % 2 == 0, j != path.last(), uniq(uvs, path.last(), j), flip1(j) != 0,
+    requires walk_ok(uvs, path, js), uvs.len() % 2 == 0, j != path.last(), uniq(uvs, path.last(), j), flip1(j) != 0, uvs[j] != uvs[path.last()],
     ensures walk_ok(uvs, path.push(flip1(j)), js.push(j))
 {
     let i2 = flip1(j);
@@ -256,7 +256,7 @@ proof fn lemma_walk_extend(uvs: Seq<u64>, path: Seq<int>, js: Seq<int>, j: int)
             if a < path.len() && b < path.len() { assert(p2[a] == path[a] && p2[b] == path[b]); }
         }
     }
-    assert forall|t: int| 0 <= t < j2.len() implies #[trigger] j2[t] != p2[t] && uniq(uvs, p2[t], j2[t]) && p2[t + 1] == flip1(j2[t]) by {
+    assert forall|t: int| 0 <= t < j2.len() implies #[trigger] j2[t] != p2[t] && uniq(uvs, p2[t], j2[t]) && p2[t + 1] == flip1(j2[t]) && uvs[j2[t]] != uvs[p2[t]] by {
         if t < js.len() { assert(j2[t] == js[t]); assert(p2[t] == path[t]); assert(p2[t + 1] == path[t + 1]); }
     }
 }
@@ -280,7 +280,7 @@ proof fn lemma_pigeon(path: Seq<int>, nn: int)
 /// what Ok means: one simple cycle through all `size` edges
 pub open spec fn simple_cycle(uvs: Seq<u64>, size: int) -> bool {
     exists|path: Seq<int>, js: Seq<int>| walk_ok(uvs, path, js.drop_last()) && path.len() == size && js.len() == size
-        && #[trigger] uniq(uvs, path.last(), js.last()) && js.last() != path.last() && flip1(js.last()) == 0
+        && #[trigger] uniq(uvs, path.last(), js.last()) && js.last() != path.last() && flip1(js.last()) == 0 && uvs[js.last()] != uvs[path.last()]
 }
 
 /// three distinct endpoints at one node: a branch
@@ -370,7 +370,7 @@ impl CuckatooContext {
 //@+        nn == 2 * size, 1 <= size <= 0x10_0000, mixed_ok(uvs@, mask, hcf, prev@, nn, nn),
 //@+        walk_ok(uvs@, path, js), path.len() == n + 1, path.last() == i, uvs@ == endpoints(self.params, proof.nonces@),
 //@+    ensures
-//@+        walk_ok(uvs@, path, js), path.len() == n, uniq(uvs@, path.last(), jlast), jlast != path.last(), flip1(jlast) == 0,
+//@+        walk_ok(uvs@, path, js), path.len() == n, uniq(uvs@, path.last(), jlast), jlast != path.last(), flip1(jlast) == 0, uvs@[jlast] != uvs@[path.last()],
 //@   after `j = i;`:
 //@+    let ghost mut wrapped: bool = false;
 //@+    proof { lemma_pigeon(path, nn); }
@@ -401,14 +401,14 @@ impl CuckatooContext {
 //@+            let jsf = js.push(jlast);
 //@+            assert(jsf.drop_last() =~= js);
 //@+            assert(walk_ok(uvs@, path, jsf.drop_last()) && path.len() == n && jsf.len() == n
-//@+                && uniq(uvs@, path.last(), jsf.last()) && jsf.last() != path.last() && flip1(jsf.last()) == 0);
+//@+                && uniq(uvs@, path.last(), jsf.last()) && jsf.last() != path.last() && flip1(jsf.last()) == 0 && uvs@[jsf.last()] != uvs@[path.last()]);
 //@+            assert(simple_cycle(uvs@, n as int));
 //@+        }
 //@+        if n == size {
 //@+            let jsf = js.push(jlast);
 //@+            assert(jsf.drop_last() =~= js);
 //@+            assert(walk_ok(uvs@, path, jsf.drop_last()) && path.len() == size && jsf.len() == size
-//@+                && uniq(uvs@, path.last(), jsf.last()) && jsf.last() != path.last() && flip1(jsf.last()) == 0);
+//@+                && uniq(uvs@, path.last(), jsf.last()) && jsf.last() != path.last() && flip1(jsf.last()) == 0 && uvs@[jsf.last()] != uvs@[path.last()]);
 //@+        }
 //@+    }
 //@   ensures:
